@@ -23,6 +23,10 @@ def crate_of(path):
 log = {}
 sh("git checkout -- . && git clean -fdq -e mutations -e target")
 demo_cmd = meta["demo_cmd"]
+# the demo usually starts with "cp <demo> <dir>/file": make sure the directory exists (git clean removes empty ones)
+for m in re.finditer(r'cp\s+\S+\s+(\S+)', demo_cmd):
+    d = os.path.dirname(m.group(1))
+    if d: demo_cmd = f"mkdir -p {d} && " + demo_cmd
 # 1. demo without the patch
 rc0, out0, t0 = sh(demo_cmd)
 log["demo_without_patch"] = {"cmd": demo_cmd, "exit": rc0, "secs": round(t0), "tail": out0[-600:]}
@@ -53,7 +57,10 @@ log["confirmed"] = ok
 dst = f"/verif/seeded/{prop}-{mn}"
 os.makedirs(dst, exist_ok=True)
 for f in os.listdir(src):
-    shutil.copy(os.path.join(src, f), os.path.join(dst, f))
+    if os.path.isdir(os.path.join(src, f)):
+        shutil.copytree(os.path.join(src, f), os.path.join(dst, f), dirs_exist_ok=True)
+    else:
+        shutil.copy(os.path.join(src, f), os.path.join(dst, f))
 meta["property"] = prop
 meta["confirmation"] = log
 meta["confirmed_by_us"] = ok
